@@ -5,6 +5,7 @@ CONSTANTS NCells = 12
  Tails = {0}
  Subs = {0}
  Engines = {"otfad"}
+ Wraps = {}
 SPECIFICATION Spec
 INVARIANT WalkAnyBase
 CHECK_DEADLOCK FALSE
